@@ -564,6 +564,7 @@ def run(ctx):
     r = ctx.rule("R6", "x86_64 gradient assembler: write discipline, hazards, call helpers restore all four lanes", 26 + 27 + 2)
     ctx.guarded(r, AC.check_write_discipline, "grad_slice")
     ctx.guarded(r, AC.check_hazards, "grad_slice")
+    ctx.guarded(r, AC.check_load_imm, "grad_slice")
     for n in ("call_fn_unary", "call_fn_binary"):
         ctx.guarded(r, AK.check_call_helper, "grad_slice", n)
     r = ctx.rule("R6b", "x86_64 gradient assembler: single-instruction builders and moves act on all four lanes of their operands", 9)
